@@ -539,6 +539,9 @@ def make_client(pkg, rec, custom_transport=False):
                 """Minimal custom transport that hands non-2xx responses back unraised."""
 
                 async def request(self, method, url, **kwargs):
+                    h = kwargs.get("headers")
+                    if isinstance(h, dict):  # a realistic transport renders header values as text
+                        kwargs["headers"] = {k: (v if isinstance(v, (str, bytes)) else str(v)) for k, v in h.items()}
                     return await inner.request(method, url, **kwargs)
 
                 async def close(self):
